@@ -27,6 +27,7 @@ import (
 	"time"
 
 	"github.com/anishathalye/porcupine"
+	"golang.org/x/crypto/bcrypt"
 )
 
 func c20SHA(pw string) string {
@@ -38,6 +39,8 @@ const c20Versions = 30
 
 // version k (1-based). Every third version is malformed (k%3==0): three different malformations.
 func c20Malformed(k int) bool { return k%3 == 0 }
+
+var c20UseBcrypt bool // set per history at quiescence (no validator or reloader running)
 
 func c20File(k int) string {
 	if c20Malformed(k) {
@@ -59,8 +62,28 @@ func c20File(k int) string {
 	for j := k + 1; j <= c20Versions; j++ {
 		s += fmt.Sprintf("shrink-%d:%s\n", j, c20SHA("s"))
 	}
-	s += fmt.Sprintf("vuser:%s\n", c20SHA("pw-"+strconv.Itoa(k)))
+	if c20UseBcrypt {
+		s += fmt.Sprintf("vuser:%s\n", c20Bcrypt(k)) // bcrypt: slow verification outside the lock
+	} else {
+		s += fmt.Sprintf("vuser:%s\n", c20SHA("pw-"+strconv.Itoa(k)))
+	}
 	return s
+}
+
+var (
+	c20BcryptOnce sync.Once
+	c20BcryptTab  []string
+)
+
+func c20Bcrypt(k int) string {
+	c20BcryptOnce.Do(func() {
+		c20BcryptTab = make([]string, c20Versions+1)
+		for i := range c20BcryptTab {
+			h, _ := bcrypt.GenerateFromPassword([]byte("pw-"+strconv.Itoa(i)), bcrypt.MinCost)
+			c20BcryptTab[i] = string(h)
+		}
+	})
+	return c20BcryptTab[k]
 }
 
 // effective version: the last well-formed version <= k
@@ -182,6 +205,7 @@ func TestVerif_C20(t *testing.T) {
 	t0 := time.Now()
 	for hI := 0; hI < histories; hI++ {
 		path := filepath.Join(dir, fmt.Sprintf("htpasswd-%d", hI))
+		c20UseBcrypt = hI%5 == 4
 		if err := c20WriteAtomic(path, c20File(1), 0); err != nil {
 			t.Fatal(err)
 		}
@@ -190,6 +214,12 @@ func TestVerif_C20(t *testing.T) {
 			t.Fatalf("initial load: %v", err)
 		}
 		nVal := validators[(hI+seed)%len(validators)]
+		// every fifth history uses a bcrypt entry for the changing password: validations then take ~ms and overlap several
+		// reloads (porcupine's search grows steeply with that overlap, so these histories use few validators)
+		c20UseBcrypt = hI%5 == 4
+		if c20UseBcrypt && nVal > 3 {
+			nVal = 3
+		}
 		var mu sync.Mutex
 		var ops []porcupine.Operation
 		var stop int32
@@ -328,6 +358,7 @@ func TestVerif_C20(t *testing.T) {
 	}
 	rep.VersionsObserved = len(observed)
 
+	c20UseBcrypt = false
 	// ---------------- B: two overlapping reloaders ---------------------------------------------------------------
 	rounds := 6
 	if thorough {
